@@ -137,9 +137,11 @@ def level_of(tier, mol, ans, mapping):
 
 def configs(tier):
     out = []
-    mols = ["H2", "H3", "H3t", "H4", "BARE"] if tier == "quick" else ["H2", "H3", "H3t", "H4", "H4f", "LiH", "BARE"]
+    mols = ["H2", "H3", "H3t", "H4", "H4f", "BARE"] if tier == "quick" else ["H2", "H3", "H3t", "H4", "H4f", "LiH", "BARE"]
     for mol in mols:
         for ans in ANSATZE:
+            if tier == "quick" and mol == "H4f" and ans not in ("UCCSD", "HEA", "QMF"):
+                continue      # frozen occupied + frozen virtual orbital: what it adds is the active-space bookkeeping
             if tier == "quick" and mol == "H4" and ans not in ("UCCSD", "UpCCGSD", "HEA", "QCC"):
                 continue
             if tier == "quick" and mol == "H3" and ans in ("UCCGD", "VSQS"):
